@@ -263,6 +263,10 @@ where
                     set(st, k);
                     st.out.push("0".into())
                 }
+                // "a wrong length is an error": which error is reported for a text that is both of the
+                // wrong length and invalid is not specified, nor is the payload of the bad-character error
+                Err(_) if s.len() != K => st.out.push("2".into()),
+                Err(ParseBioError::UnrecognisedBase(_)) => st.out.push("1".into()),
                 Err(e) => st.out.push(parse_err(&e)),
             }
         }
@@ -592,16 +596,23 @@ macro_rules! kd_arms {
     (@ordu false, $st:ident, $kk:literal, $name:ident, $t:ident) => { false };
 }
 
+/// `k`: a one-word array, for which `Kmer == SeqArray` exists; `n`: a longer one (the k-mer part is not
+/// even instantiated: an array type whose backing store is too small for its length must not be named)
+macro_rules! arr_kmer_part {
+    (k, $o:ident, $n:literal, $cs:ident, $other:ident) => {
+        $o.push("777".into());
+        $o.extend(arr_kmer::<Self, $n>($cs, $other));
+    };
+    (n, $o:ident, $n:literal, $cs:ident, $other:ident) => {};
+}
+
 macro_rules! arr_dispatch {
-    ($cs:ident, $other:ident, $bits:expr, [$(($n:literal, $w:literal)),*]) => {
+    ($cs:ident, $other:ident, $bits:expr, [$(($n:literal, $w:literal, $k:tt)),*]) => {
         match $cs.len() {
             $( $n => {
+                #[allow(unused_mut)]
                 let mut o = arr_obs::<Self, $n, $w>($cs, $other, false);
-                // Kmer == SeqArray / &SeqArray exist for one-word arrays only
-                if $w == 1 && $n * $bits <= 64 {
-                    o.push("777".into());
-                    o.extend(arr_kmer::<Self, $n>($cs, $other));
-                }
+                arr_kmer_part!($k, o, $n, $cs, $other);
                 Some(o)
             } )*
             _ => None,
@@ -645,7 +656,7 @@ fn arr_kmer<A: VC, const N: usize>(cs: &[usize], other: &SeqSlice<A>) -> Vec<Str
 impl KD for Dna {
     fn arr(cs: &[usize], other: &SeqSlice<Self>) -> Option<Vec<String>> {
         use bio_seq::seq::SeqArray;
-        let mut o = arr_dispatch!(cs, other, 2, [(1, 1), (2, 1), (3, 1), (4, 1), (5, 1), (8, 1), (16, 1), (31, 1), (32, 1), (33, 2), (40, 2), (64, 2), (65, 3)])?;
+        let mut o = arr_dispatch!(cs, other, 2, [(1, 1, k), (2, 1, k), (3, 1, k), (4, 1, k), (5, 1, k), (8, 1, k), (16, 1, k), (31, 1, k), (32, 1, k), (33, 2, n), (40, 2, n), (64, 2, n), (65, 3, n)])?;
         // From<&SeqArray<Dna, N, W>> / From<SeqArray<Dna, N, W>> for Seq<Iupac> and Seq<text::Dna>
         macro_rules! conv {
             ($(($n:literal, $w:literal)),*) => {
@@ -731,7 +742,7 @@ impl KD for Dna {
 impl KD for Iupac {
     fn arr(cs: &[usize], other: &SeqSlice<Self>) -> Option<Vec<String>> {
         use bio_seq::seq::SeqArray;
-        let mut o = arr_dispatch!(cs, other, 4, [(1, 1), (2, 1), (3, 1), (4, 1), (8, 1), (15, 1), (16, 1), (17, 2), (20, 2), (32, 2), (33, 3)])?;
+        let mut o = arr_dispatch!(cs, other, 4, [(1, 1, k), (2, 1, k), (3, 1, k), (4, 1, k), (8, 1, k), (15, 1, k), (16, 1, k), (17, 2, n), (20, 2, n), (32, 2, n), (33, 3, n)])?;
         // SeqArray<Iupac>::contains
         macro_rules! cont {
             ($(($n:literal, $w:literal)),*) => {
